@@ -90,3 +90,33 @@ class SecsIRouting:
             "delivered-to-application-exactly-once-iff-no-requester": self._event_producer.g_delivered - old.self._event_producer.g_delivered == ite(was_open, 0, 1),
             "other-requesters-untouched": forall(0, 2 ** 32, lambda k: implies(k != sys, lambda: q[k].g_puts == q0[k].g_puts)),
         }
+
+    def replay(case, name, model):
+        """Native demonstration: a real SecsIProtocol with one open transaction; a message with the requester's system bytes
+        and one with other system bytes are handed to the real handler."""
+        import logging
+        import queue as _q
+        logging.disable(logging.CRITICAL)
+        from bounded import harness as H
+        import secsgem.common
+        from secsgem.secsi.header import SecsIHeader
+        proto, conn, log = H.make_secsi(secsgem.common.DeviceType.HOST)
+        failed = []
+        try:
+            sys_open = int(model.get("in:message._blocks[0]._header._system") or 77) & 0xFFFFFFFF
+            q = proto._get_queue_for_system(sys_open)
+            other = proto._get_queue_for_system(sys_open ^ 0x5A)
+            for sysb, expect_queue in ((sys_open, True), ((sys_open + 1000) & 0xFFFFFFFF, False)):
+                log["message_received"].clear()
+                before = (q.qsize(), other.qsize())
+                msg = SecsIMessage(SecsIHeader(sysb, 0, 1, 2, 1, False, False, True), b"")
+                proto._on_connection_message_received(proto, msg)
+                dq, do = q.qsize() - before[0], other.qsize() - before[1]
+                dl = len(log["message_received"])
+                if expect_queue and (dq, do, dl) != (1, 0, 0):
+                    failed.append(f"message for the waiting requester: queued {dq}x, other queue {do}x, delivered to the application {dl}x")
+                if not expect_queue and (dq, do, dl) != (0, 0, 1):
+                    failed.append(f"message nobody waits for: queued {dq}/{do}x, delivered to the application {dl}x")
+        finally:
+            H.shutdown(proto, conn)
+        return {"status": "confirmed" if failed else "spurious", "failed_clauses": failed, "inputs": {"open_system": sys_open}}
